@@ -78,6 +78,8 @@ def gen_bv(tier, rnd, stats):
         for e in hist:
             ev = dict(e)
             ev["o"] = o
+            if ev.get("m") == "extend_bools" and rnd.random() < 0.3:
+                ev["m"] = "extend_bools_filter"     # the same step through an iterator with an inexact size hint
             b.add(ev)
             apply_bvm(bits, e)
         C.bvm_observe(b, o, bits, rnd, light=True)
